@@ -10,7 +10,7 @@ import math
 
 from .. import wire, gen, common, routes
 from ..core import call, sm, X, Report, write_evidence, Batch
-from ..engine import NumCase, ExprCase, judge_numeric, judge_expr, widen, _num_answer, answers_agree
+from ..engine import NumCase, ExprCase, judge_numeric, judge_expr, widen, _num_answer, answers_agree, out_of_range
 from . import c02
 
 PID = "C06"
@@ -43,6 +43,18 @@ def gen_cases(rng, tier: str) -> list[dict]:
             c["xobj"] = rng.random() < 0.5
             c["prior"] = prior
             prior = c["p"]
+            if rng.random() < 0.5:
+                # the route's own object is asked at a neighbouring point first (hash-colliding if possible)
+                p2, q2 = common.hash_twin(p, rng)
+                c2 = common.make_eval_case(origin, e, p2)
+                c["p"] = c2["p"]
+                c["warm"] = common.make_eval_case(origin, e, q2)["p"]
+            cases.append(c)
+    for origin, pairs in (("near-special", common.near_special(rng, common.sizes(tier, 40, 600))),
+                          ("compensating-magnitudes", common.compensating_products(rng, common.sizes(tier, 40, 600)))):
+        for e, pt in pairs:
+            c = common.make_eval_case(origin, e, pt)
+            c.update(x=rng.choice(common.names_of(e)), xobj=rng.random() < 0.5, prior=None)
             cases.append(c)
     return cases
 
@@ -75,7 +87,7 @@ def check_cases(cases: list[dict], rep: Report, known: dict) -> None:
             xx = x
             if r in routes.DERIV_ROUTES:
                 xx = None
-            impl = routes.run_route(r, fresh, xx, p)
+            impl = routes.run_route(r, fresh, xx, p, warm=[wire.build_point(c["warm"])] if c.get("warm") else ())
             xr = c["x"] if r not in routes.DERIV_ROUTES else (common.names_of(e) or ["whatever"])[0]
             nc = NumCase((c["e"], c["p"], c["x"], r), f"route {r} {xr} {c['e']} {c['p']}", impl,
                          dict(c, route=r, impl=repr(impl)))
@@ -156,7 +168,8 @@ def k1_explains(c: dict, e, p) -> bool:
     with common.k1_disabled():
         outs = []
         for r in routes.routes_for(e, c["x"]):
-            outs.append(routes.run_route(r, wire.build_raw(c["e"]), c["x"] if r not in routes.DERIV_ROUTES else None, p))
+            outs.append(routes.run_route(r, wire.build_raw(c["e"]), c["x"] if r not in routes.DERIV_ROUTES else None, p,
+                                         warm=[wire.build_point(c["warm"])] if c.get("warm") else ()))
     usable = [o for o in outs if not (o[0] == "err" and o[1] in ("overflow", "timeout", "recursion"))]
     if not usable:
         return False
@@ -209,6 +222,8 @@ def expr_checks(c: dict, e, p, rep: Report) -> list:
             a, b_ = _num_answer(sb[i1]), _num_answer(sb[i2])
             if a[0] == "ok" and b_[0] == "ok" and answers_agree(a, b_):
                 continue
+            if any(v[0] == "ok" and out_of_range(v[1]) for v in (a, b_)) or "overflow" in (a[1], b_[1]):
+                continue            # an intermediate of one of the two trees leaves the double range here
             vb = Batch()
             jj = [(vb.ask(f"F{k} eval {tl} {qt}"), vb.ask(f"F{k} eval {te} {qt}")) for k in (1, 2, 3)]
             vb.run()
